@@ -530,10 +530,74 @@ func (p *Prog) deepLockEvents(fi *FuncInfo, entry []Held, depth int, open map[st
 			continue
 		}
 		open[callee.Key] = true
-		evs = append(evs, p.deepLockEvents(callee, ev.Held, depth-1, open)...)
+		// lock paths are names: going down, the held locks are renamed to the callee's receiver and parameter
+		// names (newTx.m held, publish(ctx, newTx) declared as publish(ctx, dst) -> dst.m); coming back, the
+		// callee's events are renamed to the terms of fi, so that a rule reads them in the root function's names
+		down, up := lockRenaming(fi, ev.Call, callee)
+		entryC := make([]Held, len(ev.Held))
+		for i, h := range ev.Held {
+			entryC[i] = Held{Path: down(h.Path), Class: h.Class, Mode: h.Mode}
+		}
+		for _, ce := range p.deepLockEvents(callee, entryC, depth-1, open) {
+			te := *ce
+			te.Held = make([]Held, len(ce.Held))
+			for i, h := range ce.Held {
+				te.Held[i] = Held{Path: up(h.Path), Class: h.Class, Mode: h.Mode}
+			}
+			if ce.Op != nil {
+				op := *ce.Op
+				op.Path = up(op.Path)
+				te.Op = &op
+			}
+			evs = append(evs, &te)
+		}
 		delete(open, callee.Key)
 	}
 	return evs
+}
+
+// lockRenaming returns the path renamings for a static call: down maps a path in the caller's terms to the
+// callee's (argument -> parameter name), up the reverse. A caller path that no argument names is marked with a
+// leading "^" inside the callee so that it cannot be confused with a callee variable of the same name.
+func lockRenaming(caller *FuncInfo, c *ast.CallExpr, callee *FuncInfo) (down, up func(string) string) {
+	type pair struct{ arg, param string }
+	var pairs []pair
+	args := argExprs(c, callee)
+	for i, po := range paramObjs(callee) {
+		if po == nil || args[i] == nil {
+			continue
+		}
+		a := ast.Unparen(args[i])
+		if u, ok := a.(*ast.UnaryExpr); ok && u.Op == token.AND {
+			a = ast.Unparen(u.X)
+		}
+		switch a.(type) {
+		case *ast.Ident, *ast.SelectorExpr:
+			pairs = append(pairs, pair{types.ExprString(a), po.Name()})
+		}
+	}
+	// longest argument first: u.allStore before u
+	sort.Slice(pairs, func(i, j int) bool { return len(pairs[i].arg) > len(pairs[j].arg) })
+	down = func(path string) string {
+		for _, pr := range pairs {
+			if path == pr.arg || strings.HasPrefix(path, pr.arg+".") {
+				return pr.param + path[len(pr.arg):]
+			}
+		}
+		return "^" + path
+	}
+	up = func(path string) string {
+		if strings.HasPrefix(path, "^") {
+			return path[1:]
+		}
+		for _, pr := range pairs {
+			if path == pr.param || strings.HasPrefix(path, pr.param+".") {
+				return pr.arg + path[len(pr.param):]
+			}
+		}
+		return path
+	}
+	return down, up
 }
 
 func (la *lockAnalyzer) event(ev *LockEvent) {
